@@ -107,6 +107,12 @@ func specInDir(k, name string) bool {
 // are exactly the keys of the map (ghost function kept by the verifier).
 func rangeKeyStr(n, j int) string { return "" }
 
+// lastArgLen(f, i): the length the i-th (slice or string) argument of the latest tracked call of f had at the call.
+func lastArgLen(f string, i int) int { return 0 }
+
+// called(f): a tracked call of f has been made (ghost fact kept by the verifier).
+func called(f string) bool { return true }
+
 //@ func Files.Open
 //@   props C23
 //@   ensures !fs.ValidPath(name) ==> result == nil && result1 != nil
@@ -123,6 +129,8 @@ func rangeKeyStr(n, j int) string { return "" }
 // DirEntry values" - so every call, also one with n <= 0, starts at the cursor
 // and advances it by the number of entries it returns; with n > 0 at most n
 // entries and at least one unless io.EOF; with n <= 0 no error. Each entry
+// The number of entries is the number of names after the cursor in the sorted
+// listing (the list handed to sort.Strings), up to n. Each entry
 // says what Stat says of the same name: a key of the map is a regular file
 // with its content's size, anything else listed is an implied directory.
 func specEntryOK(e fs.DirEntry, fsys map[string][]byte) bool {
@@ -140,6 +148,9 @@ func specEntryOK(e fs.DirEntry, fsys map[string][]byte) bool {
 //@   ensures n > 0 && result1 == nil ==> len(result) <= n
 //@   ensures n > 0 && result1 != nil ==> result1 == io.EOF && len(result) == 0 && d.n == old(d.n)
 //@   ensures n <= 0 ==> result1 == nil
+//@   opt track Strings
+//@   ensures called("Strings") && n <= 0 && old(d.n) <= lastArgLen("Strings", 0) ==> len(result) == lastArgLen("Strings", 0) - old(d.n)
+//@   ensures called("Strings") && n > 0 && result1 == nil && lastArgLen("Strings", 0) - old(d.n) <= n ==> len(result) == lastArgLen("Strings", 0) - old(d.n)
 //@   ensures forall(0, len(result), func(k int) bool { return specEntryOK(result[k], d.fsys) })
 //@   opt absindex yes
 //@   loop 1
